@@ -203,8 +203,9 @@ inverse locator and has degree exactly the number of errors; by the root bound `
 (key equation for Λ); the Chien loop finds exactly the locators, Forney's formula (with the generator-base
 correction) the error values, and the correction loop restores `c`.
 
-Also kept: the earlier partial results (`rs_syndromes_linear`, `rs_min_distance`, `rs_unique_nearest`,
-`rs_corrects_single`, `rs_corrects_partial`), now corollaries in spirit but proved independently. -/
+Also kept: `rs_syndromes_linear`, `rs_min_distance`, `rs_unique_nearest` (minimum distance r+1: the restored word
+is the only code word within ⌊r/2⌋ of the received word) and `rs_corrects_single` (the one-error case, proved
+independently by symbolic execution of the decoder). -/
 
 /-- (1) syndromes are linear: the value of `c + e` at any field element is the xor of the values -/
 theorem rs_syndromes_linear (F : GF) (h : FieldOK F) (c e : List Nat) (hlen : c.length = e.length)
@@ -282,19 +283,6 @@ theorem rs_decode_encode_single (F : GF) (h : FieldOK F) (hb : F.base ≤ 1) (da
   have hrb : r + F.base ≤ F.size := by omega
   obtain ⟨w, h1, h2, h3, h4⟩ := rs_encode_zero_syndromes F h data r hk (by omega) hd hrb
   exact ⟨w, h2, h1, rs_corrects_single F h hb w r j e hr hrb (by omega) h3 h4 (by omega) he0 he⟩
-
-/-- `rs_corrects` with the exact extra hypothesis under which it is proved: at most ONE corrupted position
-    (`weight e ≤ 1` instead of `2 * weight e ≤ r`) and `r ≥ 2`.  Everything else is the full statement:
-    any code word `c` (zero syndromes) of length `n ≤ size-1` over any `FieldOK` field with generator base
-    0 or 1, any error word `e` of that length. -/
-theorem rs_corrects_partial (F : GF) (h : FieldOK F) (hb : F.base ≤ 1) (c e : List Nat) (r : Nat)
-    (hlen : e.length = c.length) (hn : c.length ≤ F.size - 1) (hc : InField F c) (he : InField F e)
-    (hz : ZeroSyndromes F c r) (hne : c ≠ []) (hr : 2 ≤ r) (hrb : r + F.base ≤ F.size)
-    (hwt : weight e ≤ 1) :
-    decode F (List.zipWith (· ^^^ ·) c e) r = .ok c := by
-  rcases zipWith_xor_weight_le_one c e hlen hwt with h0 | ⟨j, hj, m, hm0, hmem, h1⟩
-  · rw [h0]; exact rs_decode_clean F h c r hne hc hrb hz
-  · rw [h1]; exact rs_corrects_single F h hb c r j m hr hrb hn hc hz hj hm0 (he m hmem)
 
 /-! non-vacuity: the hypotheses of the theorems of this section are satisfiable — a concrete GF(16) code word
     (7 symbols, 4 parity symbols), its weight-2 neighbour, and instances with corrupted symbols -/
